@@ -131,7 +131,8 @@ dither_init (SF_PRIVATE *psf, int mode)
 		switch (SF_CODEC (psf->sf.format))
 		{	case SF_FORMAT_DOUBLE :
 			case SF_FORMAT_FLOAT :
-					pdither->read_int = psf->read_int ;
+					if (psf->read_int != dither_read_int)
+						pdither->read_int = psf->read_int ;
 					psf->read_int = dither_read_int ;
 					break ;
 
@@ -140,7 +141,8 @@ dither_init (SF_PRIVATE *psf, int mode)
 			case SF_FORMAT_PCM_16 :
 			case SF_FORMAT_PCM_S8 :
 			case SF_FORMAT_PCM_U8 :
-					pdither->read_short = psf->read_short ;
+					if (psf->read_short != dither_read_short)
+						pdither->read_short = psf->read_short ;
 					psf->read_short = dither_read_short ;
 					break ;
 
@@ -158,7 +160,8 @@ dither_init (SF_PRIVATE *psf, int mode)
 		switch (SF_CODEC (psf->sf.format))
 		{	case SF_FORMAT_DOUBLE :
 			case SF_FORMAT_FLOAT :
-					pdither->write_int = psf->write_int ;
+					if (psf->write_int != dither_write_int)
+						pdither->write_int = psf->write_int ;
 					psf->write_int = dither_write_int ;
 					break ;
 
@@ -172,16 +175,20 @@ dither_init (SF_PRIVATE *psf, int mode)
 			default : break ;
 			} ;
 
-		pdither->write_short = psf->write_short ;
+		if (psf->write_short != dither_write_short)
+			pdither->write_short = psf->write_short ;
 		psf->write_short = dither_write_short ;
 
-		pdither->write_int = psf->write_int ;
+		if (psf->write_int != dither_write_int)
+			pdither->write_int = psf->write_int ;
 		psf->write_int = dither_write_int ;
 
-		pdither->write_float = psf->write_float ;
+		if (psf->write_float != dither_write_float)
+			pdither->write_float = psf->write_float ;
 		psf->write_float = dither_write_float ;
 
-		pdither->write_double = psf->write_double ;
+		if (psf->write_double != dither_write_double)
+			pdither->write_double = psf->write_double ;
 		psf->write_double = dither_write_double ;
 		} ;
 
